@@ -102,6 +102,7 @@ type Result struct {
 	GPanic      string // first panic that reached the top of a library goroutine ("" if none)
 	Hashes      []uint64
 	ExtUsed     bool // some thread parked in a channel operation (timing of the runtime's wake-ups is not owned)
+	Diverged    bool // the choice prefix did not fit this execution (possible only when ExtUsed)
 }
 
 type global struct {
@@ -122,6 +123,8 @@ type global struct {
 	all         realsync.WaitGroup
 	mapSites    int64
 	extUsed     bool // a thread has parked outside the scheduler in this execution
+	diverged    bool // a replayed choice did not fit (only tolerated when extUsed)
+	runs        int64
 }
 
 var g global
@@ -160,6 +163,8 @@ func Run(cfg Config, prefix []int32, body func()) *Result {
 	g.nevents = 0
 	g.gpanic = ""
 	g.extUsed = false
+	g.diverged = false
+	g.runs++
 	nparked = 0
 	g.nthreads = 1
 	g.threads[0] = thread{state: 1}
@@ -171,7 +176,9 @@ func Run(cfg Config, prefix []int32, body func()) *Result {
 	point(opJoinAll, nil)
 	g.active = 0
 	g.all.Wait()
-	if g.npoints < g.prefixLen {
+	if g.npoints < g.prefixLen && g.extUsed {
+		g.diverged = true
+	} else if g.npoints < g.prefixLen {
 		OnAbort("divergence", fmt.Sprintf("prefix of %d choices but execution had only %d choice points", g.prefixLen, g.npoints))
 	}
 	res := &Result{
@@ -181,6 +188,7 @@ func Run(cfg Config, prefix []int32, body func()) *Result {
 		Events:      make([]Event, g.nevents),
 		GPanic:      g.gpanic,
 		ExtUsed:     g.extUsed,
+		Diverged:    g.diverged,
 	}
 	copy(res.Points, g.points[:g.npoints])
 	copy(res.Events, g.events[:g.nevents])
@@ -240,6 +248,13 @@ func choose(kind uint8, n int32, runEnabled bool, site int32) int32 {
 	c := int32(0)
 	if i < g.prefixLen {
 		c = g.prefix[i]
+		if (c < 0 || c >= n) && g.extUsed {
+			// the runtime decides some things this scheduler does not own once threads park in it
+			// (which ready case a select takes, when a timer fires): the execution is marked and the
+			// explorer runs the prefix again instead of trusting it
+			g.diverged = true
+			c = 0
+		}
 		if c < 0 || c >= n {
 			OnAbort("divergence", fmt.Sprintf("choice %d at point %d out of range (arity %d, kind %d)", c, i, n, kind))
 		}
@@ -398,7 +413,11 @@ var nparked int32
 func unpark(thread int32) {
 	for i := int32(0); i < nparked; i++ {
 		if parked[i].thread == thread {
-			copy(parked[i:nparked], parked[i+1:nparked])
+			// (element-wise: the runtime's slice copy is race-annotated, this bookkeeping must stay
+			// invisible to the race detector)
+			for k := i; k+1 < nparked; k++ {
+				parked[k] = parked[k+1]
+			}
 			nparked--
 			return
 		}
@@ -425,7 +444,9 @@ func released(p unsafe.Pointer, dir int8, all bool) {
 			t := &g.threads[r.thread]
 			t.op, t.obj = opResume, nil
 			t.ext = false
-			copy(parked[i:nparked], parked[i+1:nparked])
+			for k := i; k+1 < nparked; k++ {
+				parked[k] = parked[k+1]
+			}
 			nparked--
 			if !all {
 				return
@@ -455,6 +476,10 @@ func ExtBlock(chs ...ChanRef) int32 {
 	}
 	t.op, t.obj = opExt, nil
 	t.ext = true
+	if !monitorOn {
+		monitorOn = true
+		go extMonitor()
+	}
 	if nparked < int32(len(parked)) {
 		r := &parked[nparked]
 		r.thread = me
@@ -471,6 +496,32 @@ func ExtBlock(chs ...ChanRef) int32 {
 	g.cur = next
 	g.turn = next
 	return me
+}
+
+var monitorOn bool
+
+// extMonitor notices the one situation no controlled thread can: every live thread is parked in the
+// runtime (nobody spins in waitTurn, so nobody can run the deadline check).  It only reads the
+// scheduler's words.
+//
+//go:norace
+func extMonitor() {
+	var lastRun, lastTr int64
+	var since time.Time
+	for {
+		time.Sleep(200 * time.Millisecond)
+		if g.active == 0 || g.turn != -1 || !anyExt() {
+			since = time.Time{}
+			continue
+		}
+		if since.IsZero() || lastRun != g.runs || lastTr != g.transitions {
+			lastRun, lastTr, since = g.runs, g.transitions, time.Now()
+			continue
+		}
+		if time.Since(since) > ExtDeadline {
+			OnAbort("deadlock", "every live thread is blocked, the threads parked in channel operations did not come back: "+describeThreads())
+		}
+	}
 }
 
 // ExtResume is called by a thread that has come back from the operation announced by ExtBlock: it
